@@ -1,4 +1,4 @@
-#!/usr/bin/env python3
+#!/opt/veriftools/pyvenv/bin/python3
 import json, sys, glob, jsonschema
 jsonschema.validate(json.load(open('/verif/MANIFEST.json')), json.load(open('/root/.vp/MANIFEST.schema.json')))
 sch = json.load(open('/root/.vp/EVIDENCE.schema.json'))
